@@ -95,6 +95,8 @@ func main() {
 			if o.Status != "discharged" {
 				n++
 				fmt.Printf("%s %s %s\n    %s\n", o.Status, o.Key, o.Pos, o.Detail)
+			} else if os.Getenv("VERIF_VERBOSE") != "" {
+				fmt.Printf("ok %s %s\n    %s\n", o.Key, o.Pos, o.Detail)
 			}
 		}
 		fmt.Printf("%s: %d obligations, %d not discharged\n", *prop, len(rep.Obls), n)
@@ -257,6 +259,9 @@ func analyse(meta *propMeta, cfg LoadConfig) (rep *Report, p *Prog, err error) {
 		extra(p, rep)
 	}
 	for _, extra := range round5Rules[meta.ID] {
+		extra(p, rep)
+	}
+	for _, extra := range round6Rules[meta.ID] {
 		extra(p, rep)
 	}
 	if registry[meta.ID] != nil {
